@@ -162,7 +162,8 @@ fn finish(ctx: &mut Ctx) -> Result<i32, MachineryError> {
         std::fs::write(dir.join("case.sd"), &v.case.src).map_err(|e| MachineryError(e.to_string()))?;
         let j = json!({
             "property": ctx.id, "tier": ctx.tier.name(), "clause": v.clause, "detail": v.detail,
-            "mode": format!("{:?}", v.case.mode), "tag": v.case.tag, "cli_path": v.case.cli_path, "generated_by": v.case.meta,
+            "mode": format!("{:?}", v.case.mode), "tag": v.case.tag, "cli_path": v.case.cli_path,
+            "companion": v.case.companion, "companion_edit": v.case.companion_edit.map(|e| vec![e.0, e.1, e.2]), "generated_by": v.case.meta,
             "reference": v.ref_summary,
             "subject_batch": {"class": v.subject_class, "stdout": v.subject_stdout, "msg": v.subject_msg},
             "subject_cli": cli,
@@ -282,6 +283,8 @@ pub fn replay(dir: &str) -> i32 {
         nontrivial: true,
         no_ref: false,
         cli_path: meta["cli_path"].as_str().map(|s| s.to_string()),
+        companion: meta["companion"].as_str().map(|s| s.to_string()),
+        companion_edit: meta["companion_edit"].as_array().and_then(|a| if a.len() == 3 { Some((a[0].as_u64()? as usize, a[1].as_u64()? as usize, a[2].as_u64()? as usize)) } else { None }),
     };
     if let Some(path) = case.cli_path.clone() {
         let r = eval::run(&src, REF_BUDGET);
@@ -305,6 +308,23 @@ pub fn replay(dir: &str) -> i32 {
         };
     }
     let pool = subject::Pool::new(&bin);
+    if case.companion.is_some() {
+        match check.replay_group(&case, &pool) {
+            Ok(Some(Verdict::Violation { clause, detail })) => {
+                println!("replay: {} / {}", clause, detail);
+                println!("VIOLATION property={} replay={}", id, dir);
+                subject::cleanup_tmp();
+                return 1;
+            }
+            Ok(Some(Verdict::Pass)) => {
+                println!("replay: the recorded pair no longer violates {}", id);
+                subject::cleanup_tmp();
+                return 0;
+            }
+            Ok(None) => {}
+            Err(e) => return machinery(&e.0),
+        }
+    }
     let o = match pool.run(&[Req { mode, label: "case.sd", src: &src }]) {
         Ok(o) => o.into_iter().next().unwrap(),
         Err(e) => return machinery(&e.0),
